@@ -749,6 +749,109 @@ class Proofs:
             rej('state-proof-cell-mutated', lambda: cp.check_account_proof(p4, blk, addr, acc_lib))
 
 
+def _shard_proof_method(self, rng, quick):
+    """check_shard_proof (the fourth checker of the module, built on the block-header check): a masterchain block whose state update commits to a masterchain state
+    whose ShardHashes list a shard block.  Block and state are encoded by the reference from block.tlb (BlockInfo, ShardStateUnsplit + McStateExtra + BinTree ShardDescr),
+    pruned the way a lite server prunes them, and must be accepted; ten forgeries must be rejected."""
+    from pytoniq_core.tl.block import BlockIdExt
+    from lib import tlbspec as S
+    from checks import c16_tlb_parsers as c16
+    R, cp = self.R, self.cp
+    g = S.G(rng)
+    g.small = True
+    # ---- the shard blocks the masterchain state knows about: workchain 0, a BinTree of 1..4 ShardDescr leaves
+    nleaves = rng.choice([1, 2, 3, 4])
+    descrs = [g.value(S.t('ShardDescr')) for _ in range(nleaves)]
+    shape = rng.choice(c16.tree_shapes(nleaves))
+    it = iter(descrs)
+
+    def build(sh):
+        w = T.W()
+        if sh is None:
+            w.u(0, 1)
+            S.enc(w, S.t('ShardDescr'), next(it))
+        else:
+            w.u(1, 1).ref(build(sh[0])).ref(build(sh[1]))
+        return w.cell()
+    tree = build(shape)
+    target = rng.choice(descrs)
+    # ---- McStateExtra
+    w = T.W()
+    w.u(0xcc26, 16)
+    T.enc_hashmap_e(w, {0: tree}, 32, lambda vw, x: vw.ref(x))
+    w.bytes(rng.randbytes(32)).ref(T.hashmap({0: rc.RC('1')}, 32, lambda vw, x: vw.ref(x)))
+
+    def inner(iw):
+        iw.u(0, 16)
+        S.enc(iw, S.t('ValidatorInfo'), g.value(S.t('ValidatorInfo')))
+        iw.u(0, 1)
+        S.enc(iw, S.t('KeyMaxLt'), {'_': 'key_max_lt', 'key': False, 'max_end_lt': 0})        # prev_blocks: empty HashmapAugE + its root extra
+        iw.bool(rng.random() < 0.5)
+        T.enc_maybe(iw, None, lambda mw, x: None)
+    w.sub(inner)
+    T.enc_currency_collection(w, {'grams': rng.getrandbits(60), 'other': {}})
+    custom = w.cell()
+    seqno = rng.getrandbits(31)
+    st_dict = {'global_id': -239, 'shard_id': {'shard_pfx_bits': 0, 'workchain_id': -1, 'shard_prefix': 1 << 63}, 'seq_no': seqno, 'vert_seq_no': 0,
+               'gen_utime': rng.getrandbits(31), 'gen_lt': rng.getrandbits(62), 'min_ref_mc_seqno': rng.getrandbits(31), 'out_msg_queue_info': ordinary_tree(rng, 3),
+               'before_split': 0, 'accounts': {}, 'overload_history': 0, 'underload_history': 0, 'total_balance': {'grams': 0, 'other': {}},
+               'total_validator_fees': {'grams': 0}, 'master_ref': None, 'custom_cell': custom}
+    state = T.cell_of(T.enc_shard_state_unsplit, st_dict)
+    ext = lambda: g.value(S.t('ExtBlkRef'))
+    b = {'version': 0, 'not_master': 0, 'after_merge': 0, 'before_split': 0, 'after_split': 0, 'want_split': False, 'want_merge': False, 'key_block': False, 'vert_seqno_incr': 0,
+         'flags': 0, 'seq_no': seqno, 'vert_seq_no': 0, 'shard': {'_': 'shard_ident', 'shard_pfx_bits': 0, 'workchain_id': -1, 'shard_prefix': 1 << 63}, 'gen_utime': g.uint(32),
+         'start_lt': g.uint(64), 'end_lt': g.uint(64), 'gen_validator_list_hash_short': g.uint(32), 'gen_catchain_seqno': g.uint(32), 'min_ref_mc_seqno': g.uint(32),
+         'prev_key_block_seqno': g.uint(32), 'gen_software': None, 'master_ref': None, 'prev_ref': {'prev': ext()}, 'prev_vert_ref': None}
+    iw = T.W()
+    c16.enc_block_info(iw, b)
+    info = iw.cell()
+
+    def mk_block(info_cell, new_state):
+        upd = rc.make_merkle_update(rc.make_pruned(ordinary_tree(rng, 3), 1), rc.make_pruned(new_state, 1))
+        return rc.RC(format(0x11ef55aa, '032b') + rc.u(rng.getrandbits(32), 32), [info_cell, ordinary_tree(rng, 3), upd, ordinary_tree(rng, 5)])   # block#11ef55aa global_id:int32
+    block = mk_block(info, state)
+
+    def proof_of(block_r, state_r, prune_more=True):
+        # the block keeps its info and its state update; value flow and extra are pruned.  The state keeps the path to the ShardHashes; the rest may be pruned
+        bchild = prune(block_r, {block_r.refs[1].hash, block_r.refs[3].hash})
+        chosen = {state_r.refs[0].hash, state_r.refs[1].hash, state_r.refs[2].hash} if prune_more else set()
+        schild = prune(state_r, chosen)
+        return rc.encode_boc([rc.make_merkle_proof(bchild), rc.make_merkle_proof(schild)], has_idx=rng.random() < 0.5, has_crc=rng.random() < 0.5)
+    blk = BlockIdExt(-1, -(1 << 63), seqno, block.hash, rng.randbytes(32))
+    shrd = BlockIdExt(0, -(1 << 63), target['seq_no'], target['root_hash'], target['file_hash'])
+    W = {'leaves': nleaves, 'shape': repr(shape), 'block_hash': block.hash, 'shard_root_hash': target['root_hash']}
+    for pm in (True, False):
+        proof = proof_of(block, state, pm)
+        got = self.expect_accept('check_shard_proof', lambda: cp.check_shard_proof(proof, blk, shrd), dict(W, proof_boc=proof if len(proof) < 4000 else None, state_mostly_pruned=pm))
+        if got is not None:
+            R.check(any(getattr(x, 'root_hash', None) == target['root_hash'] for x in getattr(got, 'list', [])), 'shard-descr-returned',
+                    'check_shard_proof returned something that does not hold the shard block it was asked about', W)
+    self.expect_accept('check_shard_proof', lambda: cp.check_shard_proof(b'', blk, blk), dict(W, same_block=True))       # the block itself: nothing to prove
+    proof = proof_of(block, state)
+    other_state = T.cell_of(T.enc_shard_state_unsplit, dict(st_dict, gen_lt=st_dict['gen_lt'] ^ 1))
+    other_info_w = T.W()
+    c16.enc_block_info(other_info_w, dict(b, seq_no=(seqno + 1) & 0x7fffffff))
+    block_other_seq = mk_block(other_info_w.cell(), state)
+    forgeries = [
+        ('block-hash-other', lambda: cp.check_shard_proof(proof, BlockIdExt(-1, -(1 << 63), seqno, rng.randbytes(32), blk.file_hash), shrd)),
+        ('block-not-masterchain', lambda: cp.check_shard_proof(proof, BlockIdExt(0, -(1 << 63), seqno, block.hash, blk.file_hash), shrd)),
+        ('block-seqno-other', lambda: cp.check_shard_proof(proof, BlockIdExt(-1, -(1 << 63), (seqno + 1) & 0x7fffffff, block.hash, blk.file_hash), shrd)),
+        ('block-info-seqno-other', lambda: cp.check_shard_proof(proof_of(block_other_seq, state), BlockIdExt(-1, -(1 << 63), seqno, block_other_seq.hash, blk.file_hash), shrd)),
+        ('state-of-another-block', lambda: cp.check_shard_proof(proof_of(block, other_state), blk, shrd)),
+        ('shard-root-hash-unknown', lambda: cp.check_shard_proof(proof, blk, BlockIdExt(0, -(1 << 63), target['seq_no'], rng.randbytes(32), target['file_hash']))),
+        ('shard-workchain-unknown', lambda: cp.check_shard_proof(proof, blk, BlockIdExt(7, -(1 << 63), target['seq_no'], target['root_hash'], target['file_hash']))),
+        ('one-root', lambda: cp.check_shard_proof(rc.encode_boc([rc.make_merkle_proof(prune(block, {block.refs[1].hash}))]), blk, shrd)),
+        ('three-roots', lambda: cp.check_shard_proof(rc.encode_boc([rc.make_merkle_proof(prune(block, {block.refs[1].hash})), rc.make_merkle_proof(state), rc.RC('1')]), blk, shrd)),
+        ('roots-swapped', lambda: cp.check_shard_proof(rc.encode_boc([rc.make_merkle_proof(state), rc.make_merkle_proof(prune(block, {block.refs[1].hash}))]), blk, shrd)),
+    ]
+    for op, f in forgeries:
+        self.expect_reject('check_shard_proof', op, f, dict(W, operator=op))
+    R.case(mon.fp('shardproof', block.hash, state.hash))
+
+
+Proofs.shard_proof = _shard_proof_method
+
+
 def run(R):
     rng = R.rng
     quick = R.tier == 'quick'
@@ -775,6 +878,8 @@ def run(R):
             P.header(rng)
         for i in range((25 if quick else 600) // R.nshards + 1):
             P.account(rng, quick)
+        for i in range((12 if quick else 300) // R.nshards + 1):
+            P.shard_proof(rng, quick)
     finally:
         inv.uninstall()
     R.floor('honest_check_proof', 100)
@@ -786,6 +891,8 @@ def run(R):
     R.floor('dictionary_branches_pruned', 10)
     R.floor('account_extra_currencies', 2, 'set')
     R.floor('honest_check_account_proof', 20)
+    R.floor('honest_check_shard_proof', 20)
+    R.floor('operators_check_shard_proof', 10, 'set')
     R.floor('forgery_check_proof', 300)
     R.floor('forgery_check_account_proof', 100)
     R.floor('operators_check_account_proof', 12, 'set')
